@@ -63,17 +63,20 @@ func coqPred(d *Driver, name string, cfg *Cfg, f []string) string {
 var driveLetterSeg = regexp.MustCompile(`^/[A-Za-z]\|(/|$)`)
 
 // roundTripDiff: parse the serialization (no base) and compare everything observable; "" when equal
-func roundTripDiff(p url.Parser, f []string) string {
-	o := implParse(p, nil, f[fHref])
+func roundTripDiff(p url.Parser, f []string) string { return roundTripDiffExpect(p, f[fHref], f) }
+
+// roundTripDiffExpect: parse href and compare with the expected observables
+func roundTripDiffExpect(p url.Parser, href string, f []string) string {
+	o := implParse(p, nil, href)
 	if o.Kind != "U" {
-		return "serialization " + fmt.Sprintf("%q", f[fHref]) + " does not parse: " + o.String()
+		return "serialization " + fmt.Sprintf("%q", href) + " does not parse: " + o.String()
 	}
 	for _, i := range allButVerrs {
 		if i == fParams {
 			continue // whether the parameter object has been created is not part of the URL
 		}
 		if o.Fields[i] != f[i] {
-			return fmt.Sprintf("re-parsing %q changes %s: %q -> %q", f[fHref], fieldNames[i], f[i], o.Fields[i])
+			return fmt.Sprintf("re-parsing %q changes %s: %q -> %q", href, fieldNames[i], f[i], o.Fields[i])
 		}
 	}
 	return ""
@@ -103,13 +106,29 @@ func init() {
 	props["C03"] = &propDef{
 		run: func(c *Ctx) {
 			check := func(hc histCase, upto int, f []string) {
-				if f[fScheme] == "file" && driveLetterSeg.MatchString(f[fPathname]) {
-					c.Label("exception:drive-letter")
-					return
-				}
-				if f[fScheme] == "file" && f[fHostname] == "localhost" {
-					// the standard's protocol setter keeps the host "localhost" when switching to file; its parser maps it to the empty host
-					c.Label("exception:file-localhost")
+				// the two places where the standard's own algorithms do not round-trip (states only its protocol setter reaches):
+				// a file URL whose first segment is a non-normalised drive letter (re-parsing writes X: for X|), and a file URL
+				// with the host "localhost" (re-parsing gives the empty host). Nothing else may change there either.
+				if f[fScheme] == "file" && (driveLetterSeg.MatchString(f[fPathname]) || f[fHostname] == "localhost") && f[fOpaque] == "0" {
+					e := append([]string(nil), f...)
+					pre := "file://" + f[fHost] + f[fPathname]
+					if !strings.HasPrefix(f[fHref], pre) || !strings.HasPrefix(f[fHrefNoFrag], pre) {
+						c.Report(Finding{Class: "violation", What: "serialization of a file URL is not file:// + host + pathname + ...: " + f[fHref], Case: hc.Case(upto), Impl: strings.Join(f, " | ")})
+						return
+					}
+					if driveLetterSeg.MatchString(e[fPathname]) {
+						c.Label("exception:drive-letter")
+						e[fPathname] = e[fPathname][:2] + ":" + e[fPathname][3:]
+					}
+					if e[fHostname] == "localhost" {
+						c.Label("exception:file-localhost")
+						e[fHostname], e[fHost] = "", ""
+					}
+					e[fHrefNoFrag] = "file://" + e[fHost] + e[fPathname] + f[fHrefNoFrag][len(pre):]
+					e[fHref] = "file://" + e[fHost] + e[fPathname] + f[fHref][len(pre):]
+					if d := roundTripDiffExpect(defaultCfg.Parser, f[fHref], e); d != "" {
+						c.Report(Finding{Class: "violation", What: "serialize-then-parse changes more than the standard's own non-round-tripping step explains: " + d, Case: hc.Case(upto), Impl: strings.Join(f, " | "), Host: f[fHostname]})
+					}
 					return
 				}
 				if d := roundTripDiff(defaultCfg.Parser, f); d != "" {
@@ -132,7 +151,7 @@ func init() {
 			famEdgeHist(c, defaultCfg, allButVerrs, "edge-pairs", false, eachState)
 		},
 		rule: "parse results (WPT + generated inputs, with and without base) and every state of generated setter histories (1-6 of the nine setters, values from component generators); for each state Parse(Href(false)) must succeed and reproduce all 19 observables; distinct = distinct (start, op list); non-trivial = start parsed and at least one setter applied, or parse got past the scheme state",
-		assume: []string{"exception of the property (protocol setter to file with a non-normalised drive letter first segment) is skipped by shape: scheme=file and pathname starts with /X|"},
+		assume: []string{"the two states in which the standard's own algorithms do not round-trip (file URL with first segment X|, file URL with host localhost; both reachable only through the protocol setter) are recognised by shape, and there the re-parse must differ from the state in exactly that normalisation and nothing else"},
 	}
 
 	props["C04"] = &propDef{
